@@ -31,7 +31,7 @@ CHECKS = {
    text="Static: the RawUndo aggregate is built only from memory-version-0 reads (before any store) for every kind; do_unmake_move "
         "interpreted on the abstract post-state of each kind/case restores every touched square, every set membership, `all` and all "
         "scalar fields from the undo record; dispatch colour mapping; every error path of every Make::make_raw leaves the board untouched "
-        "or rolls back with the same move and undo. Per-step exactness for all inputs of each abstract case; nesting follows by induction. ADDED: the null move is run with a8 empty / own / enemy, since Move::NULL names a8 as both squares.",
+        "or rolls back with the same move and undo. Per-step exactness for all inputs of each abstract case; nesting follows by induction. ADDED: the null move is run with a8 empty / own / enemy, since Move::NULL names a8 as both squares. ADDED: the library's own users of undo are re-checked here (component): pop un-counts, clears the outcome and unmakes with the popped pair; the walker's loops exit only at the target index and next/prev synchronise the board to the index of the move they return.",
    note=TB + "Same abstract-case assumptions as C03."),
  "C05": dict(cat="other", ref="DESIGN.md §3 C05",
    technique="symbolic XOR-multiset comparison of hash updates with zobrist(post)^zobrist(pre); occupancy membership simulation; exhaustive key-table algebra",
@@ -84,7 +84,7 @@ CHECKS = {
    text="Static: Move::is_well_formed is folded per (kind, cell) and its residual tree evaluated on all 4096 (src,dst) pairs: it must equal "
         "the geometric-possibility predicate written from the rules (532,480 tuples, exhaustive); each generator family reaches exactly "
         "the emitters of its documented class and the classes partition; all add_move sites pass matches_piece-accepted constants; castling "
-        "conditions of generator and validator are the same four; Move is constructible only through gated constructors. ADDED: the semilegal generator is read as set algebra over the bitboards it iterates (rules/emitrules.py) and must emit S->D of each (kind, piece) exactly when the reference rules allow it, for all 64x64 pairs on abstract boards, both colours (sliding lookups as proved in C15; castling by the condition-set rule); the validator do_is_move_semilegal is evaluated on abstract boards for every well-formed tuple and must accept exactly under the chess conditions. Generator, validator and well-formedness are thereby each compared with one reference.",
+        "conditions of generator and validator are the same four; Move is constructible only through gated constructors. ADDED: the semilegal generator is read as set algebra over the bitboards it iterates (rules/emitrules.py) and must emit S->D of each (kind, piece) exactly when the reference rules allow it, for all 64x64 pairs on abstract boards, both colours (sliding lookups as proved in C15; castling by the condition-set rule); the validator do_is_move_semilegal is evaluated on abstract boards for every well-formed tuple and must accept exactly under the chess conditions. Generator, validator and well-formedness are thereby each compared with one reference. ADDED 2: the attack-query component is re-run here (castling is semilegal only over unattacked squares: generator and validator both ask do_is_cell_attacked, which is decided as the five-term reduction over exact tables, attack::pawn/king/knight evaluated on every argument).",
    note=TB + "matches_piece/from_castling/allowed_mask are tabulated by constant folding."),
  "C11": dict(cat="other", ref="DESIGN.md §3 C11",
    technique="abstract-point evaluation of the validation decision tree (972 points); condition-set extraction for the normalising writes",
@@ -134,7 +134,7 @@ CHECKS = {
         "equality), unmake after decrement / make before increment on stack[board_pos]; next/prev update pos, synchronise the board to "
         "exactly the index of the move they return and hand out the walker's own board; the walker holds a shared slice and an owned "
         "board; GameStatus::from tabulated on all 23 inputs; list separator and from_uci_list structure. The shown positions then follow "
-        "from C03/C04; the text of a styled move itself is C09's. ADDED: StyledList::fmt is classified path by path: only walker moves in the requested style, numbers ('N. '/'N... ' first, ' N.' before later White moves, value = board number - first + start) and the final status are printed, with format templates decoded from the compiled constants; a compile-fail witness shows the chain cannot be mutated while a walker borrows it. ADDED 2: the undo component (undo record read before any store; unmake restores squares, sets and scalars for every kind) is re-run here: stepping back unmakes on the walker's board; the UCI list separator is decided by evaluating the model of Display for chains of 0-3 moves.",
+        "from C03/C04; the text of a styled move itself is C09's. ADDED: StyledList::fmt is classified path by path: only walker moves in the requested style, numbers ('N. '/'N... ' first, ' N.' before later White moves, value = board number - first + start) and the final status are printed, with format templates decoded from the compiled constants; a compile-fail witness shows the chain cannot be mutated while a walker borrows it. ADDED 2: the undo component (undo record read before any store; unmake restores squares, sets and scalars for every kind) is re-run here: stepping back unmakes on the walker's board; the UCI list separator is decided by evaluating the model of Display for chains of 0-3 moves. ADDED 3: the UCI-reader component (kind inference tabulated with en-passant marks next to the source and behind the destination, conversion tables, text round trip of every uci::Move) is re-run here: the chain's UCI text is replayed through make::Uci.",
    note=TB + "The E0502 borrow witness runs in the quick tier as well."),
  "C18": dict(cat="other", ref="DESIGN.md §3 C18",
    technique="compile-time witnesses, table and tabulated-function mirror checks, dispatcher pairing, colour-branch inventory, index-function consistency lint; generator/validator comparison with a symmetric reference",
